@@ -8,6 +8,9 @@ type TypeClass struct {
 	String bool
 	Enum   string // stem of the enum's base integer
 	Record bool
+	// a record that is a struct of fixed-size fields: its wire size
+	RecFixedOK bool
+	RecFixed   int
 }
 
 // ShapeLike abstracts geneval.Shape (avoids an import cycle).
@@ -74,7 +77,7 @@ func Expected(s ShapeLike, op string, depth int, classify func(string) (TypeClas
 	case c.Enum != "":
 		return []Item{{Kind: KScalar, Prim: c.Enum, Operand: op, Enum: true}}, nil
 	case c.Record:
-		return []Item{{Kind: KRec, Operand: op}}, nil
+		return []Item{{Kind: KRec, Operand: op, FixedOK: c.RecFixedOK, Fixed: c.RecFixed}}, nil
 	}
 	return nil, fmt.Errorf("unclassified type %s", s.Name())
 }
